@@ -390,7 +390,13 @@ func (e *Engine) tryStub(name string, fn *ssa.Function, args []Value, g *Term, p
 			if !ok {
 				panic(unsupported("assert on poison: " + l))
 			}
-			e.vc("assert", l, pos, And(g, Not(b)))
+			if e.trace {
+				e.logf("ASSERT %s: g=%s b=%s", l, g.render(3), b.render(3))
+			}
+			if v := e.vc("assert", l, pos, And(g, Not(b))); v == nil && e.bestEffort == 0 {
+				e.VCs = append(e.VCs, &VC{Kind: "assert", Label: l, Pos: e.pos(pos), Result: "unsat",
+					Note: "condition simplified to false (decided syntactically, or by the feasibility queries that pruned the paths leading to it)"})
+			}
 			return nil, true
 		case "AssertKF":
 			l, _ := concreteStr(args[0])
@@ -465,10 +471,10 @@ func (e *Engine) tryStub(name string, fn *ssa.Function, args []Value, g *Term, p
 		return e.errorsIs(args[0], args[1], 0), true
 	case "github.com/obolnetwork/charon/app/errors.As", "errors.As":
 		e.StubsUsed[name]++
-		return Poison{"errors.As"}, true
+		return Poison{why: "errors.As"}, true
 	case "fmt.Sprintf", "fmt.Sprint", "fmt.Sprintln":
 		e.StubsUsed[name]++
-		return Poison{"fmt string"}, true
+		return Poison{why: "fmt string"}, true
 	case "fmt.Println", "fmt.Printf", "fmt.Print", "fmt.Fprintf", "fmt.Fprintln":
 		e.StubsUsed[name]++
 		return zeroResult(sig), true
@@ -530,7 +536,7 @@ func (e *Engine) tryStub(name string, fn *ssa.Function, args []Value, g *Term, p
 	case "math.Ceil", "math.Floor", "math.Sqrt", "math.Abs", "math.Round", "math.Trunc":
 		fv, ok := args[0].(FloatV)
 		if !ok {
-			return Poison{"math on symbolic float"}, true
+			return Poison{why: "math on symbolic float"}, true
 		}
 		switch name {
 		case "math.Ceil":
@@ -553,7 +559,7 @@ func (e *Engine) tryStub(name string, fn *ssa.Function, args []Value, g *Term, p
 			}
 			return Str(strconv.FormatInt(t.SVal(), 10)), true
 		}
-		return Poison{"strconv of symbolic"}, true
+		return Poison{why: "strconv of symbolic"}, true
 	}
 	if strings.HasPrefix(name, "sync/atomic.") {
 		if r, ok := e.atomicOp(name[len("sync/atomic."):], args, g, pos); ok {
@@ -630,7 +636,7 @@ func (e *Engine) bytesEqual(a, b Value, g *Term, pos token.Pos) Value {
 	x, ok1 := a.(SliceV)
 	y, ok2 := b.(SliceV)
 	if !ok1 || !ok2 {
-		return Poison{"bytes.Equal on poison"}
+		return Poison{why: "bytes.Equal on poison"}
 	}
 	res := Eq(x.len, y.len)
 	ub := e.boundOf(x.len, "bytes.Equal length", g, pos)
